@@ -24,7 +24,7 @@ import tempfile
 from vf import core, recgen
 
 THEOREMS = [
-    "C14_generated_cfg_ok", "C14_base64_roundtrip", "C14_iso_roundtrip", "C14_value_roundtrip", "C14_roundtrip",
+    "C14_generated_cfg_ok", "C14_generated_options_ok", "C14_base64_roundtrip", "C14_iso_roundtrip", "C14_value_roundtrip", "C14_roundtrip",
     "C14_roundtrip_nonfinite_partial", "C14_lines_are_documents", "C14_lines_plain_json",
     "C14_no_descriptors_readable", "C14_refused_write_step", "C14_refused_writes", "C14_tolerant_writer_agrees",
     "C14_scalars_preserved", "C14_comparisons_sound",
@@ -917,6 +917,122 @@ def report_failure(ctx, e, tag, records, seed_info):
 
 
 # ------------------------------------------------------------------------------------------------
+# the writer's options: indent (int, None, and TEXT in every spelling) and descriptors, through the constructor and
+# through the URL query
+
+INDENT_TEXTS = ["2", "0", "02", "007", "10", " 2", "2 ", "  4  ", "\t2\n", "+2", "-1", "+0", "-0", "1_0", "1_0_0", "", " ", "abc", "2.0",
+                "1e1", "0x2", "+", "-", "- 1", "_1", "1_", "1__0", "2 2", "two", "\t", "None", "nan", "٣"]
+INDENT_VALUES = [None, 0, 1, 2, 7, -1]
+DESCRIPTOR_ARGS = [True, False, "true", "True", "TRUE", "1", 1, "false", "False", "0", 0, "", "yes", "no", " true", "2", None]
+
+
+def py_int(text):
+    try:
+        return int(text)
+    except ValueError:
+        return None
+
+
+def run_options(ctx, records, tmpd, tag):
+    """every accepted setting gives a sequence of strict-JSON documents whose trees are the trees written without
+    indentation; a text that denotes no number is refused at construction.  Raises Failure."""
+    from urllib.parse import quote
+
+    from flow.record import RecordWriter
+    from flow.record.adapter.jsonfile import JsonfileWriter
+    base = {}
+    for on in (True, False):
+        path = os.path.join(tmpd, "opt_base_%d.json" % on)
+        base[on] = [parse_tree(d) for d in write_impl(records, path, "direct", on, None).split("\n")[:-1]]
+
+    def attempt(make):
+        """(stage at which it raised or None, exception, text)"""
+        path = os.path.join(tmpd, "opt.json")
+        try:
+            w = make(path)
+        except Exception as e:  # noqa
+            return "construction", e, None
+        try:
+            try:
+                for r in records:
+                    w.write(r)
+                w.flush()
+            finally:
+                w.close()
+        except Exception as e:  # noqa
+            return "write", e, None
+        with open(path, "r", newline="") as fh:
+            return None, None, fh.read()
+
+    def documents(text, what):
+        try:
+            docs = split_documents(text)
+        except ValueError as e:
+            raise Failure("option-not-json", "%s: the output is not a sequence of JSON documents (%s); it starts %r" % (what, str(e)[:60], text[:40]),
+                          dict(setting=what, head=text[:200]))
+        out = []
+        for d in docs:
+            try:
+                strict_parse(d)
+            except ValueError as e:
+                raise Failure("option-not-json", "%s: a document is rejected by the strict parser: %s" % (what, e), dict(setting=what, document=d[:200]))
+            out.append(parse_tree(d))
+        return out
+
+    for on in (True, False):
+        settings = [("constructor indent=%r" % v, v, lambda p, v=v: JsonfileWriter(p, indent=v, descriptors=on), True) for v in INDENT_VALUES]
+        for t in INDENT_TEXTS:
+            settings.append(("constructor indent=%r" % t, t, lambda p, t=t: JsonfileWriter(p, indent=t, descriptors=on), True))
+            q = "" if on else "&descriptors=false"
+            settings.append(("URL ?indent=%s" % quote(t), t, lambda p, t=t: RecordWriter("jsonfile://%s?indent=%s%s" % (p, quote(t), q)), False))
+            if "+" in t and "%" not in t and "&" not in t:
+                # an unquoted + in a query decodes to a blank
+                settings.append(("URL ?indent=%s" % t, t.replace("+", " "), lambda p, t=t: RecordWriter("jsonfile://%s?indent=%s%s" % (p, t, q)), False))
+        for what, v, make, ctor in settings:
+            what = "%s, descriptors=%s" % (what, on)
+            ctx.count_case(("option", tag, what), nontrivial=False)
+            stage, exc, text = attempt(make)
+            blank_query = (not ctor) and isinstance(v, str) and v == ""       # `?indent=` is dropped by the query parser: no indentation
+            accepted = v is None or isinstance(v, int) or blank_query or py_int(v) is not None
+            if accepted:
+                if stage:
+                    raise Failure("option-refused", "%s: %s raises %s: %s -- int() reads the number %r from this text" % (
+                        what, stage, type(exc).__name__, str(exc)[:80], py_int(v) if isinstance(v, str) else v), dict(setting=what))
+                if documents(text, what) != base[on]:
+                    raise Failure("option-documents", "%s: the documents differ from the documents written without indentation" % what, dict(setting=what))
+                if (v is None or blank_query) and text.count("\n") != len(base[on]):
+                    raise Failure("option-layout", "%s: not one document per line" % what, dict(setting=what))
+            else:
+                if stage != "construction" or not isinstance(exc, ValueError):
+                    how = "no error; the output starts %r" % text[:30] if stage is None else "%s raises %s" % (stage, type(exc).__name__)
+                    if stage is None:
+                        documents(text, what)        # the stronger complaint first: the output is not JSON
+                    raise Failure("option-unrefused", "%s: the text denotes no number but is not refused with a ValueError at construction (%s)" % (what, how),
+                                  dict(setting=what))
+    # descriptors=
+    for d in DESCRIPTOR_ARGS:
+        for ctor in (True, False):
+            if not ctor and not isinstance(d, str):
+                continue
+            if ctor:
+                what = "constructor descriptors=%r" % (d,)
+                make = (lambda p: JsonfileWriter(p)) if d is None else (lambda p, d=d: JsonfileWriter(p, descriptors=d))
+            else:
+                what = "URL ?descriptors=%s" % quote(d)
+                make = lambda p, d=d: RecordWriter("jsonfile://%s?descriptors=%s" % (p, quote(d)))  # noqa: E731
+            ctx.count_case(("option", tag, what), nontrivial=False)
+            stage, exc, text = attempt(make)
+            if stage:
+                raise Failure("option-descriptors", "%s: %s raises %s" % (what, stage, type(exc).__name__), dict(setting=what))
+            trees = documents(text, what)
+            blank_query = (not ctor) and d == ""
+            must = True if d in (True, "true", None) or blank_query else False if d in (False, "false") else None
+            if not (trees == base[True] and must in (True, None) or trees == base[False] and must in (False, None)):
+                raise Failure("option-descriptors", "%s: the output is neither the descriptors=true nor the descriptors=false output%s" % (
+                    what, "" if must is None else " expected for it"), dict(setting=what))
+
+
+# ------------------------------------------------------------------------------------------------
 # refused writes: the application catches the exception of write() and carries on
 
 def poison(rnd, r):
@@ -1110,6 +1226,13 @@ def search(ctx, reason):
         except Exception as e:  # noqa
             report_failure(ctx, Failure("exception", "%s; failing input: %s: %s" % (reason, type(e).__name__, str(e)[:200])), tag, recs, info)
             return True
+    for tag, recs, info in sequences_for(ctx, 2):
+        if tag in ("all-types", "identifier-collision", "s0", "s1"):
+            try:
+                run_options(ctx, recs, tmpd, tag)
+            except Failure as e:
+                report_failure(ctx, Failure(e.cls, "%s; failing input: %s" % (reason, e.what), e.detail), tag, recs, info)
+                return True
     for tag, recs, badmap, info in refused_histories(ctx, 30):
         try:
             run_refused(ctx, recs, badmap, tmpd, tag, [], [])
@@ -1138,7 +1261,10 @@ def run(ctx):
         "(non-None) value. Variants (RecordWriter by extension / jsonfile:// URI, indent=2) are compared with the "
         "base text / trees and counted as evaluations only; plus REFUSED-WRITE histories (a record json.dumps refuses -- a raw "
         "object in a typed list, an integer beyond the int/str limit -- first of its type / between / twice, the application carries "
-        "on: accepted records read back in order, documents = model's tolerant writer, evaluated in Coq); plus a fresh-interpreter smoke (child process importing only "
+        "on: accepted records read back in order, documents = model's tolerant writer, evaluated in Coq); plus the OPTION dimension "
+        "(indent as None / int / text in every spelling int() accepts or rejects, descriptors in its spellings, through the constructor "
+        "and the URL query: accepted settings give strict-JSON documents equal to the unindented ones, other texts are refused at "
+        "construction; counted as evaluations only); plus a fresh-interpreter smoke (child process importing only "
         "flow.record, one per supported type and one with all types: text and read-back = in-process result)")
     ok = core.standard_proof_stage(ctx, ["props/C14.vo"], "C14", THEOREMS, search_fn=search, gens=["gen_json"])
     ctx.assumptions += [
@@ -1185,6 +1311,15 @@ def run(ctx):
             return
         if len(ctx.coverage["samples"]) < 4 and tag in ("all-types", "s0", "s1", "identifier-collision"):
             ctx.sample(dict(tag=tag, records=[rec_repr(r) for r in recs][:2]))
+    for tag in ("all-types", "identifier-collision", "keyword-all-types", "s0", "s1") + (() if ctx.tier == "quick" else tuple("s%d" % i for i in range(2, 12))):
+        recs, info = seqs[tag]
+        if any(record_has_nonfinite(r) for r in recs):
+            continue
+        try:
+            run_options(ctx, recs, tmpd, tag)
+        except Failure as e:
+            report_failure(ctx, e, tag, recs, info)
+            return
     for tag, recs, badmap, info in refused_histories(ctx, 25 if ctx.tier == "quick" else 250):
         seqs[tag] = (recs, info)
         ctx.count_case(("refused", tag, tuple(sorted(badmap)), tuple(r._desc.name for r in recs)), nontrivial=bool(badmap))
@@ -1286,6 +1421,8 @@ def replay(obj):
             recs = gen_sequence(random.Random("%d/C14/%d" % (obj["seed"], obj["index"])))
         try:
             run_sequence(c, recs, tmpd, "replay", kf, [], [], variants=True)
+            if not any(record_has_nonfinite(r) for r in recs):
+                run_options(c, recs, tmpd, "replay")
         except Failure as e:
             print("replay: still fails: %s" % e.what)
             return 1
